@@ -85,6 +85,9 @@ class LipschitzOptimizer(SMBO):
     @SMBO.track_new_pos
     @SMBO.track_X_sample
     def iterate(self):
+        if len(self.X_sample) == 0:
+            return self.move_random()
+
         self.pos_comb = self._sampling(self.all_pos_comb)
 
         lip_func = LipschitzFunction(self.pos_comb)
